@@ -117,7 +117,7 @@ BOUNDS = {
     "quick": {
         "tree": [{"alphabet": "full", "W": [1, 2, 3, 4], "depth": 3}, {"alphabet": "mini", "W": [5], "depth": 3}],
         "bind": {"sigs": 8, "flags": [list(N_), list(D_), [True, 1, False]]},
-        "flags": {"cfgs": [0, 3]},
+        "flags": {"cfgs": [0, 3, 4, 5]},
         "kwonly": {"sigs": 3, "flags": [list(N_), list(D_)]},
         "extra": {"spell_cfgs": [0, 1], "attr_len": 3},
         "direct": "armed: 12 call shapes x 3 functions evaluated in the expression / an attribute of a call with content (plain, supports_caller, supports_caller reading caller); empty: 8 bodies (6 of them writing nothing) x 4 filter lists x up to 8 places; nscall: 6 shapes of an inline callable called with content x 4 call spellings x 3 bodies using caller; each Template rendered twice",
@@ -126,7 +126,7 @@ BOUNDS = {
     "thorough": {
         "tree": [{"alphabet": "full", "W": [1, 2, 3, 4, 5], "depth": 4}, {"alphabet": "core", "W": [6], "depth": 4}],
         "bind": {"sigs": 10, "flags": [list(N_), list(B_), list(F_), list(D_), [True, 2, True]]},
-        "flags": {"cfgs": [0, 1, 2, 3]},
+        "flags": {"cfgs": [0, 1, 2, 3, 4, 5]},
         "kwonly": {"sigs": 5, "flags": [list(N_), list(B_), list(F_), list(D_)]},
         "extra": {"spell_cfgs": [0, 1, 2, 3], "attr_len": 4},
         "direct": "as quick",
